@@ -325,6 +325,15 @@ func (r *Resolver) of(v ssa.Value) *Org {
 			if in.K == "cell" {
 				return r.loadCell(in.V.(*ssa.Alloc), x)
 			}
+			if in.K == "field" {
+				// a field (path) of a struct built as a literal and never
+				// written again (a carrier of captured state): its value
+				if _, ok := x.X.(*ssa.FieldAddr); ok {
+					if sv, sr := r.carrierPathValue(x.X, 0); sv != nil {
+						return sr.Of(sv)
+					}
+				}
+			}
 			if in.K == "field" || in.K == "index" || in.K == "global" {
 				return &Org{K: in.K, V: x, Name: in.Name, Sub: in.Sub, Idx: in.Idx}
 			}
@@ -566,7 +575,25 @@ func isCalleeObj(cc *ssa.CallCommon, obj types.Object) bool {
 		return false
 	}
 	if cc.IsInvoke() {
-		return cc.Method == obj
+		if cc.Method == obj {
+			return true
+		}
+		// a call through a (repository-declared) interface that the
+		// method's receiver type implements: the call may reach the method
+		if m, ok := obj.(*types.Func); ok && cc.Method.Name() == m.Name() {
+			if sig, ok := m.Type().(*types.Signature); ok && sig.Recv() != nil {
+				if iface, ok := cc.Value.Type().Underlying().(*types.Interface); ok && iface.NumMethods() > 0 {
+					rt := sig.Recv().Type()
+					if types.Implements(rt, iface) {
+						return true
+					}
+					if _, isPtr := rt.(*types.Pointer); !isPtr && types.Implements(types.NewPointer(rt), iface) {
+						return true
+					}
+				}
+			}
+		}
+		return false
 	}
 	f := staticCallee(cc)
 	if f == nil {
@@ -611,4 +638,170 @@ func (r *Resolver) Bind(fn *ssa.Function, site ssa.CallInstruction) *Resolver {
 	}
 	nr.Site[fn] = site
 	return nr
+}
+
+
+// carrierPathValue: addr is a field path on a struct that was built as a
+// literal (each field written exactly once, at construction, and the field
+// of that struct type written nowhere else in the repository): the value
+// stored into that field, and the resolver to interpret it with. The struct
+// may be the spilled copy of a by-value receiver or parameter, in which case
+// the caller's literal is consulted. (nil, nil) otherwise.
+func (r *Resolver) carrierPathValue(addr ssa.Value, depth int) (ssa.Value, *Resolver) {
+	if r.P == nil || depth > 3 {
+		return nil, nil
+	}
+	var path []int
+	var ftypes []*types.Named
+	cur := addr
+	for {
+		fa, ok := cur.(*ssa.FieldAddr)
+		if !ok {
+			break
+		}
+		path = append([]int{fa.Field}, path...)
+		ftypes = append([]*types.Named{namedOf(fa.X.Type())}, ftypes...)
+		cur = fa.X
+	}
+	if len(path) == 0 {
+		return nil, nil
+	}
+	for i, nt := range ftypes {
+		if nt == nil || !r.P.fieldOnlyInitialised(nt, path[i]) {
+			return nil, nil
+		}
+	}
+	bo := r.Of(cur)
+	al, ok := bo.V.(*ssa.Alloc)
+	if bo.K != "alloc" || !ok {
+		return nil, nil
+	}
+	return r.allocPathValue(al, path, depth)
+}
+
+func (r *Resolver) allocPathValue(al *ssa.Alloc, path []int, depth int) (ssa.Value, *Resolver) {
+	samePath := func(a ssa.Value) bool {
+		var sp []int
+		cur := a
+		for {
+			fa, ok := cur.(*ssa.FieldAddr)
+			if !ok {
+				break
+			}
+			sp = append([]int{fa.Field}, sp...)
+			cur = fa.X
+		}
+		if cur != ssa.Value(al) || len(sp) != len(path) {
+			return false
+		}
+		for i := range sp {
+			if sp[i] != path[i] {
+				return false
+			}
+		}
+		return true
+	}
+	var val ssa.Value
+	n := 0
+	var whole []*ssa.Store
+	if al.Parent() != nil {
+		for _, b := range al.Parent().Blocks {
+			for _, in := range b.Instrs {
+				st, ok := in.(*ssa.Store)
+				if !ok {
+					continue
+				}
+				if st.Addr == ssa.Value(al) {
+					whole = append(whole, st)
+				}
+				if samePath(st.Addr) {
+					n++
+					val = st.Val
+				}
+			}
+		}
+	}
+	if n == 1 && len(whole) == 0 {
+		return val, r
+	}
+	if n == 0 && len(whole) == 1 && depth < 3 {
+		// the copy of a by-value receiver / parameter / struct value:
+		// look at the struct it was copied from
+		o := r.Of(whole[0].Val)
+		if o.K == "unop" && o.Name == "*" && len(o.Sub) == 1 && o.Sub[0].K == "alloc" {
+			if a2, ok := o.Sub[0].V.(*ssa.Alloc); ok && a2 != al {
+				return r.allocPathValue(a2, path, depth+1)
+			}
+		}
+		// a field of another carrier (an embedded struct passed by value)
+		if o.K == "field" {
+			if ld, ok := o.V.(*ssa.UnOp); ok {
+				if fa, ok := ld.X.(*ssa.FieldAddr); ok {
+					var pre []int
+					cur := ssa.Value(fa)
+					for {
+						f2, ok := cur.(*ssa.FieldAddr)
+						if !ok {
+							break
+						}
+						pre = append([]int{f2.Field}, pre...)
+						cur = f2.X
+					}
+					bo := r.Of(cur)
+					if a2, ok := bo.V.(*ssa.Alloc); ok && bo.K == "alloc" && a2 != al {
+						return r.allocPathValue(a2, append(pre, path...), depth+1)
+					}
+				}
+			}
+		}
+	}
+	return nil, nil
+}
+
+// fieldOnlyInitialised: every store to field idx of named struct type nt in
+// the repository addresses a struct allocated in the same function (a
+// literal under construction): the field is never reassigned through a
+// pointer, receiver or parameter.
+func (p *Prog) fieldOnlyInitialised(nt *types.Named, idx int) bool {
+	key := nt.Obj().Pkg().Path() + "." + nt.Obj().Name() + "#" + fmt.Sprint(idx)
+	if p.fieldInit == nil {
+		p.fieldInit = map[string]bool{}
+	}
+	if v, ok := p.fieldInit[key]; ok {
+		return v
+	}
+	ok := true
+	for _, fn := range p.AllRepoFuncs() {
+		if fn.Blocks == nil {
+			continue
+		}
+		for _, b := range fn.Blocks {
+			for _, in := range b.Instrs {
+				st, isSt := in.(*ssa.Store)
+				if !isSt {
+					continue
+				}
+				fa, isFA := st.Addr.(*ssa.FieldAddr)
+				if !isFA || fa.Field != idx {
+					continue
+				}
+				if n := namedOf(fa.X.Type()); n == nil || n.Obj() != nt.Obj() {
+					continue
+				}
+				base := fa.X
+				for {
+					if f2, isFA := base.(*ssa.FieldAddr); isFA {
+						base = f2.X
+						continue
+					}
+					break
+				}
+				if _, isAlloc := base.(*ssa.Alloc); !isAlloc {
+					ok = false
+				}
+			}
+		}
+	}
+	p.fieldInit[key] = ok
+	return ok
 }
